@@ -62,8 +62,8 @@ def _setup(root):
     os.makedirs(os.path.join(root, "store_ref"))
 
 
-def _run(root, script, ref):
-    env = dict(os.environ, PYTHONDONTWRITEBYTECODE="1", PYTHONHASHSEED="0")
+def _run(root, script, ref, hashseed=0):
+    env = dict(os.environ, PYTHONDONTWRITEBYTECODE="1", PYTHONHASHSEED=str(hashseed))
     paths = [os.path.join(root, "helpers")] + ([os.path.join(root, "ref")] if ref else [core.REPO])
     env["PYTHONPATH"] = os.pathsep.join(paths)
     p = subprocess.run([core.PY, script, os.path.join(root, "store_ref" if ref else "store_real")], capture_output=True, text=True, env=env, cwd=root, timeout=300)
@@ -80,9 +80,10 @@ def run_script_history(spec, entry, variant_seq):
     try:
         _setup(root)
         script = os.path.join(root, "pipeline_script.py")
-        for v in variant_seq:
+        for i, v in enumerate(variant_seq):
             open(script, "w").write(script_text(spec, v, entry))
-            out.append((_run(root, script, False), _run(root, script, True)))
+            # every step is a new interpreter with another hash seed: what one run stored must be found by the next
+            out.append((_run(root, script, False, hashseed=i + 1), _run(root, script, True)))
     finally:
         shutil.rmtree(root, ignore_errors=True)
     return out
